@@ -282,12 +282,59 @@ func c11units(tier string) []mc.Unit {
 			r.Bound("sweep", fmt.Sprintf("%d lengths (every length to %d, then +7%% steps to %d) x about 20 shapes", len(lens), tier2(tier, 300, 600), lens[len(lens)-1]))
 		}})
 	}
+	// every length 0..L: one pseudo-random mixed-code and one pure A/C/G/T string per length
+	maxLen := tier2(tier, 12300, 40000)
+	for part := 0; part < 4; part++ {
+		part := part
+		us = append(us, mc.Unit{Name: fmt.Sprintf("every-length/part=%d", part), Weight: maxLen / 100, Run: func(r *mc.Recorder) {
+			f1 := lcgString(c11codes+"acgtnry", maxLen, 21)
+			f2 := lcgString("ACGT", maxLen, 22)
+			cnt := int64(0)
+			for n := part; n <= maxLen; n += 4 {
+				for _, s := range []string{f1[maxLen-n:], f2[:n]} {
+					want := c11rc(s)
+					var rc string
+					if p := catch(func() { rc = transform.ReverseComplement(s) }); p != "" || rc != want {
+						r.Failf("rc-code-semantics", fmt.Sprintf("pseudo-random string of %d letters", n), []string{"every-length"}, "oracle reverse complement", fmt.Sprintf("differs %s", p))
+					}
+					if got, w := checks.IsPalindromic(s), s == want; got != w {
+						r.Failf("palindromic", fmt.Sprintf("pseudo-random string of %d letters", n), []string{"every-length"}, fmt.Sprint(w), fmt.Sprint(got))
+					}
+					cnt++
+				}
+				if r.Enough() {
+					break
+				}
+			}
+			r.Eval(cnt)
+			r.AddStates(cnt)
+			r.AddTransitions(cnt * 2)
+			r.AddNontrivial(cnt)
+			r.Bound("every-length", fmt.Sprintf("every length 0..%d, two strings each", maxLen))
+		}})
+	}
 	// large expansions (up to 4^9 variants) under several GOMAXPROCS settings
-	for _, in := range []string{"NNNNNNNN", "NNNNNNNNN", "BDHVBDHVBD", "BBBBBBBBBBB", "NRYNKMNBDN", "ANNNNCNNNNG", "VVVVVVVVVHA"} {
+	longAmb := func(n, k int, code byte) string { // n letters, k of them the ambiguity code, spread evenly
+		b := []byte(lcgString("ACGT", n, uint32(n)))
+		for i := 0; i < k; i++ {
+			b[i*n/k] = code
+		}
+		return string(b)
+	}
+	for _, in := range []string{"NNNNNNNN", "NNNNNNNNN", "BDHVBDHVBD", "BBBBBBBBBBB", "NRYNKMNBDN", "ANNNNCNNNNG", "VVVVVVVVVHA",
+		longAmb(16, 9, 'N'), longAmb(32, 9, 'N'), longAmb(63, 9, 'N'), longAmb(64, 9, 'N'), longAmb(65, 8, 'N'), longAmb(100, 10, 'B'), longAmb(128, 9, 'N'), longAmb(256, 8, 'N'), longAmb(1000, 6, 'N'), longAmb(4096, 4, 'N')} {
 		in := in
-		us = append(us, mc.Unit{Name: "large-expansion/" + in, Weight: 60, Run: func(r *mc.Recorder) {
+		uname := in
+		if len(uname) > 16 {
+			uname = fmt.Sprintf("%d-letters-%s", len(in), in[:8])
+		}
+		us = append(us, mc.Unit{Name: "large-expansion/" + uname, Weight: 60, Run: func(r *mc.Recorder) {
 			want := c11expand(in)
-			withProcs(procsMenu, func(p int) {
+			menu := procsMenu
+			if len(want)*len(in) > 5000000 {
+				menu = []int{1, 4} // several hundred megabytes per call: two settings only
+			}
+			withProcs(menu, func(p int) {
 				got, err := variants.AllVariantsIUPAC(in)
 				g := append([]string(nil), got...)
 				sort.Strings(g)
@@ -303,7 +350,7 @@ func c11units(tier string) []mc.Unit {
 							break
 						}
 					}
-					r.Failf("variants-exact", fmt.Sprintf("%s with GOMAXPROCS=%d", in, p), []string{"large"}, fmt.Sprintf("%d variants, each once", len(want)), fmt.Sprintf("%d variants, err=%v, %s", len(g), err, bad))
+					r.Failf("variants-exact", fmt.Sprintf("%s with GOMAXPROCS=%d", q(in), p), []string{"large"}, fmt.Sprintf("%d variants, each once", len(want)), fmt.Sprintf("%d variants, err=%v, %s", len(g), err, bad))
 				}
 				r.Eval(1)
 				r.AddStates(1)
